@@ -28,7 +28,7 @@ VARIANT = "std"
 STATEFUL = True
 LEVEL = "proof"
 FILES = ["stanza.c", "hash.c", "parser_expat.c", "compression.c", "ctx.c", "conn.c", "auth.c", "handler.c"]
-ALSO = [("c12conn", 300)]
+ALSO = [("c12conn", 300), ("c06", 1500)]   # + send-queue histories (engine q) end with zero live blocks
 TRUSTED = ["model Strophe/Model/Store.lean (heap of stanza nodes with raw pointers, reference counts, liveness, "
            "allocator books) tied to src/stanza.c + src/hash.c by differential execution (engine own): after every "
            "op the live-block count of the instrumented allocator, return codes, reference counts (white box: "
